@@ -53,6 +53,13 @@ _CHECK = None
 _KNOWN_KEYS = set()
 
 
+def _fresh():
+    """Every run starts from the process-global state of a fresh interpreter (see sim.world)."""
+    from .world import install, reset_coba_globals
+    install()
+    reset_coba_globals()
+
+
 def _worker_init(factory_mod, factory_name):
     global _CHECK, _KNOWN_KEYS
     faulthandler.enable()
@@ -74,8 +81,10 @@ def _run_chunk(args):
         seed = splitmix64(base_seed, i)
         try:
             cfg = chk.gen(_cfg_rng(seed), tier, i)
+            _fresh()
             r = chk.run(cfg, seed)
             if want_twice and (i % want_twice == 0):
+                _fresh()
                 r2 = chk.run(cfg, seed)
                 if r2["digest"] == r["digest"]:
                     out["twice_ok"] += 1
@@ -134,6 +143,7 @@ def shrink_failure(chk, cfg, seed, vio, budget_s=60.0, fresh_seeds=3):
         vs = r.get("violations") or ([r["violation"]] if r.get("violation") else [])
         return next((v for v in vs if v["cls"] == cls), None)
 
+    _fresh()
     best = chk.run(cfg, seed)
     bv = same(best)
     if bv is None:
@@ -148,6 +158,7 @@ def shrink_failure(chk, cfg, seed, vio, budget_s=60.0, fresh_seeds=3):
             for s in seeds:
                 tries += 1
                 try:
+                    _fresh()
                     r = chk.run(cand, s)
                 except Exception:
                     continue
@@ -165,6 +176,7 @@ def shrink_failure(chk, cfg, seed, vio, budget_s=60.0, fresh_seeds=3):
             nonlocal tries
             tries += 1
             try:
+                _fresh()
                 r = chk.run(cfg, seed, choices=ch)
             except Exception:
                 return None
@@ -203,12 +215,14 @@ def shrink_failure(chk, cfg, seed, vio, budget_s=60.0, fresh_seeds=3):
             while cur and cur[-1] == -1:
                 cur.pop()
             choices = cur
+        _fresh()
         final = chk.run(cfg, seed, choices=choices)
         fv = same(final)
         if fv is not None:
             best, bv = final, fv
         else:       # should not happen; fall back to the unshrunk schedule
             choices = list(best.get("trace") or [])
+            _fresh()
             best = chk.run(cfg, seed, choices=choices)
             bv = same(best) or bv
     else:
@@ -230,6 +244,7 @@ def write_replay(chk, cfg, seed, choices, res, vio, info):
 def do_replay(chk, path):
     with open(path) as f:
         rp = json.load(f)
+    _fresh()
     r = chk.run(rp["cfg"], rp["seed"], choices=rp.get("choices"))
     vs = r.get("violations") or ([r["violation"]] if r.get("violation") else [])
     want = rp["violation"]["cls"]
@@ -282,6 +297,7 @@ def main(factory_mod, factory_name, argv=None):
     if a.one is not None:
         s = splitmix64(seed, a.one)
         cfg = chk.gen(_cfg_rng(s), a.tier, a.one)
+        _fresh()
         r = chk.run(cfg, s)
         print(jdump({"cfg": cfg, "result": {k: v for k, v in r.items() if k != "trace"}}))
         sys.exit(1 if (r.get("violation") or r.get("violations")) else 0)
